@@ -38,6 +38,7 @@ def main():
             print(open(a.replay).read()[:4000])
             return 0
         return mod.replay(ctx, a.replay)
+    running_body = False
     try:
         with common.BuildLock():
             common.run_gen(ctx, getattr(mod, 'GEN', []))
@@ -59,6 +60,7 @@ def main():
                 p = subprocess.run(['lake', 'env', 'leanchecker', mod.MODULES[0]], cwd=common.LEAN,
                                    stdout=subprocess.PIPE, stderr=subprocess.STDOUT, text=True, timeout=3000)
                 ctx.oblige('leanchecker ' + mod.MODULES[0], p.returncode == 0, p.stdout[-800:])
+        running_body = True
         mod.run(ctx, build_ok and drv_ok)
     except subprocess.TimeoutExpired as e:
         print('TIMEOUT %s' % e)
@@ -72,9 +74,26 @@ def main():
         pkg = os.path.join(os.path.realpath(common.REPO), 'tamoc') + os.sep
         inner = [f for f in tb if os.path.realpath(f.filename).startswith(pkg)]
         if not inner:
+            # Not raised by the package.  If the harness itself tripped over a value / shape it read back from the code under
+            # test (IndexError, KeyError, ValueError, TypeError, ... inside harness/cXX.py while the check body ran), the
+            # correspondence between model and implementation can no longer be evaluated: that is a broken obligation
+            # (reported as VIOLATION ... no-failing-input-found unless concrete violations were already recorded), not an
+            # infrastructure error.  On the unchanged tree the check body runs to completion for every seed tried, so
+            # this only fires when the code changed.  Everything else (OS, subprocess, memory, build) stays exit 2.
+            data_errors = (IndexError, KeyError, ValueError, TypeError, AttributeError, ZeroDivisionError, FloatingPointError,
+                           AssertionError, OverflowError)
+            in_body = any(os.path.realpath(f.filename).startswith(os.path.join(common.VERIF, 'harness') + os.sep)
+                          and os.path.basename(f.filename) not in ('check.py', 'common.py', 'fortran.py') for f in tb)
+            if not (running_body and in_body and isinstance(e, data_errors)):
+                traceback.print_exc()
+                print('INFRASTRUCTURE-ERROR in check %s' % prop)
+                return 2
             traceback.print_exc()
-            print('INFRASTRUCTURE-ERROR in check %s' % prop)
-            return 2
+            ctx.oblige('check %s could interpret what the code under test returned (harness ran to completion)' % prop, False,
+                       'seed=%s tier=%s\n%s' % (a.seed, a.tier, traceback.format_exc()[-3000:]))
+            return common.finish(ctx, mod.RULE, mod.LEVEL_NOTE,
+                                 'cd /verif && ./check %s --tier %s' % (prop, a.tier),
+                                 extra=None, exhaustive=False)
         site = inner[-1]
         harness_site = [f for f in tb if os.path.realpath(f.filename).startswith(os.path.join(common.VERIF, 'harness'))]
         ctx.violation('uncaught-raise:%s@%s:%s' % (type(e).__name__, os.path.basename(site.filename), site.name),
